@@ -13,8 +13,15 @@ inductive ExtModeNode
   | terminal (e : Exts)
   | panic
 
-/-- `try_extend_node(node, dir)` -/
-def tryExtendNode (g : G D) (st : Bool) (join : D → D → Bool) (avail : List Nat) (node : Nat) (dir : Dir) : ExtModeNode :=
+/-- everything `try_extend_node` computes that does not depend on availability -/
+inductive StaticN
+  | panic
+  | terminal (e : Exts)
+  /-- a resolved unique extension: target `y` entered on side `incoming`; `bad` = the target k-mer is a palindrome
+      (unstranded) or `join` refused; `cnt` = number of extensions of the target on the entered side -/
+  | cand (y : Nat) (incoming : Dir) (bad : Bool) (cnt : Nat) (e : Exts)
+
+def staticNode (g : G D) (st : Bool) (join : D → D → Bool) (node : Nat) (dir : Dir) : StaticN :=
   match g.nodes[node]? with
   | none => .panic
   | some nd =>
@@ -37,13 +44,19 @@ def tryExtendNode (g : G D) (st : Bool) (join : D → D → Bool) (avail : List 
                | .L, .R, false => true | .L, .L, true => true | .R, .L, false => true | .R, .R, true => true
                | _, _, _ => false)
             if !consistent then .panic
-            else if !(avail.contains nextId) || (!st && isPalindrome nextKmer) || !(join nd.data nn.data) then
-              .terminal (nd.exts.singleDir dir)
-            else
-              let cnt := nn.exts.numExtDir incoming
-              if cnt == 0 then .panic
-              else if cnt == 1 then .unique nextId incoming.flip
-              else .terminal (nd.exts.singleDir dir)
+            else .cand nextId incoming ((!st && isPalindrome nextKmer) || !(join nd.data nn.data)) (nn.exts.numExtDir incoming)
+                  (nd.exts.singleDir dir)
+
+/-- `try_extend_node(node, dir)`: availability of the target is tested before its incoming count -/
+def tryExtendNode (g : G D) (st : Bool) (join : D → D → Bool) (avail : List Nat) (node : Nat) (dir : Dir) : ExtModeNode :=
+  match staticNode g st join node dir with
+  | .panic => .panic
+  | .terminal e => .terminal e
+  | .cand y incoming bad cnt e =>
+    if !(avail.contains y) || bad then .terminal e
+    else if cnt == 0 then .panic
+    else if cnt == 1 then .unique y incoming.flip
+    else .terminal e
 
 /-- `extend_node`: the path of `(node, incoming side)` and the terminal extensions -/
 def extendNode (g : G D) (st : Bool) (join : D → D → Bool) (avail : List Nat) (cur : Nat) (dir : Dir) :
